@@ -80,6 +80,10 @@ def main():
             if dpath and dpath.startswith("/tmp/seed/%s/wt/" % pid):
                 dpath = dpath[len("/tmp/seed/%s/wt/" % pid):]
             demo_files = [f for f in os.listdir(src) if f not in ("patch.diff", "meta.json") and not f.endswith(".log")]
+            if "demo_test.go" in demo_files:
+                demo_files = ["demo_test.go"]  # the primary demonstration; optional extras are not placed
+            elif os.path.isdir(os.path.join(src, "demo")):
+                demo_files = ["demo"]
             placed = []
             for f in demo_files:
                 s = os.path.join(src, f)
@@ -96,7 +100,8 @@ def main():
                         os.makedirs(os.path.dirname(d), exist_ok=True)
                     shutil.copy(s, d)
                     placed.append(d)
-            dcmd = (dcmd or "").replace("/tmp/seed/%s/wt" % pid, wt)
+            dcmd = re.split(r"\s{2,}\(", dcmd or "")[0]
+            dcmd = dcmd.replace("/tmp/seed/%s/wt" % pid, wt)
             rc1, out1 = sh(dcmd, cwd=wt, timeout=900)
             sh("git checkout -- .", cwd=wt)
             rc2, out2 = sh(dcmd, cwd=wt, timeout=900)
